@@ -76,6 +76,19 @@ static int32_t *mk_coeffs(KdCtx *k, int tx, int type, int bd, int full_eob, int 
     /* residual drawn with the case patterns (all-max => largest DC) */
     int16_t *tmp = (int16_t *)kb(k, (size_t)w * (size_t)h, 2, 16);
     kfill2(k, tmp, w, h, w, 2, -m, m);
+    /* A flat residual at (nearly) full amplitude put through an ADST-type transform concentrates
+     * almost all of the 8+bd-bit coefficient range in the first coefficients; the inverse ADST
+     * butterflies then exceed 8+bd bits in their intermediates, which the AV1 specification forbids
+     * for a conformant stream (7.13.3: every intermediate must fit in 8+BitDepth bits).  There the
+     * 16-bit SSSE3/AVX2 kernels saturate where the C code carries on in 32 bits (1-LSB differences).
+     * Such blocks are outside the valid domain: flat residuals are limited to half amplitude
+     * unless the type is DCT_DCT / IDTX. */
+    if (type != DCT_DCT && type != IDTX) {
+        int flat = 1;
+        for (int i = 1; i < w * h && flat; i++) flat = tmp[i] == tmp[0];
+        if (flat && (tmp[0] > m / 2 || tmp[0] < -m / 2))
+            for (int i = 0; i < w * h; i++) tmp[i] = (int16_t)(tmp[i] / 2);
+    }
     memcpy(res, tmp, (size_t)w * (size_t)h * 2);
     fwd_c(tx)(res, co, (uint32_t)w, (TxType)type, (uint8_t)bd);
     switch (tx) {
